@@ -623,6 +623,40 @@ def r10_span_end(run, F):
     run.floor("R10-SPAN-END", 2, "EndOfSpan construction sites (parse_type, parse_primary_expression)")
 
 
+def r11_reservations_do_not_nest(run, F):
+    """`if x == y { ..` is parsed with a *reservation*: the comparison only sees the tokens up to the next `{` or `;`.  When the
+    reservation ends, the parser's window is reset to the whole rest of the token stream -- which is right for the outermost
+    reservation only.  A reservation taken while another one is active would, on its release, hand the outer one the whole rest of
+    the input: `if |x| == n { .. }` reads `n { ..` as a structure literal.  Call-graph rule, both generations: no function
+    reachable from the code that runs under a reservation takes a reservation itself."""
+    g = mirq.callgraph(F.lib)
+    n = 0
+    for W in sorted(k for k in F.lib.bodies if k.endswith("Tokens::with_reservation")):
+        callers = sorted(k for k, v in g.items() if W in v and k in F.lib.bodies and "hir" in F.lib.bodies[k])
+        run.require(callers, "no caller of %s found" % W)
+        for f in callers:
+            b = F.lib.bodies[f]
+            guards = set()
+            for x in walk(b["hir"]):
+                if x.get("k") == "Let" and isinstance(x.get("init"), dict):
+                    init = hirq.unwrap_trivial(x["init"])
+                    if init.get("k") == "MethodCall" and (hirq.callee(init) or "") == W and hirq.strip_ref(x["pat"]).get("k") == "Bind":
+                        guards.add(hirq.strip_ref(x["pat"])["lid"])
+            under = set()
+            for c in hirq.calls(b["hir"]):
+                if hirq.callee(c) in F.lib.bodies and any(y.get("k") == "Path" and y.get("lid") in guards for a in c.get("a", []) for y in walk(a)):
+                    under.add(hirq.callee(c))
+            run.require(guards and under, "%s: the code that runs under the reservation was not found" % f)
+            reach = mirq.reachable_fns(g, under)
+            nested = sorted(x for x in reach if W in g.get(x, ()))
+            n += 1
+            run.ob("R11-RESERVATIONS-DO-NOT-NEST", f.split("::", 1)[0] + "::" + f.split("::")[-1], not nested, F.where(b),
+                   "under the reservation taken in %s the parser can reach %s, which takes a reservation of its own; its release resets the outer window to the "
+                   "whole rest of the input (%d functions run under the reservation)" % (f.split("::")[-1], [x.split("::")[-1] for x in nested], len(reach)),
+                   sample={"under": sorted(under), "reachable": len(reach)})
+    run.ob("R11-RESERVATIONS-DO-NOT-NEST", "scan", n >= 2, "src/delta/parser.rs / src/alpha/parser.rs", "%d reservation sites examined" % n)
+
+
 def check(run):
     F = run.facts("A")
     r9_flags_flow(run, F)
@@ -634,3 +668,4 @@ def check(run):
     r5_agree(run, F)
     r7_list_shapes(run, F)
     r8_literal_delimiters(run, F)
+    r11_reservations_do_not_nest(run, F)
